@@ -3,7 +3,7 @@ import spec
 from spec import hex_of, bits_of
 
 OBLIGATION_MODULES = ["PyModeS.Properties.C02"]
-TIE_MODULES = ['PyModeS.Tie.Basic', 'PyModeS.Tie.Common', 'PyModeS.Tie.Surv']
+TIE_MODULES = ['PyModeS.Tie.Basic', 'PyModeS.Tie.Common', 'PyModeS.Tie.Surv', 'PyModeS.Tie.Crc', 'PyModeS.Tie.C0278Gen']
 MAIN_THEOREM = "PyModeS.C02.icao_AA / icao_AP / icao_none_otherwise / icao_canonical"
 RULE = ("DF 0..31 x {56,112} bits x {upper, lower, mixed} hex case x addresses (incl. 000000, FFFFFF, letters-only, digits-only) "
         "with random payloads; non-trivial = an address is expected (not None)")
